@@ -300,6 +300,7 @@ def run(ctx: Ctx) -> None:
             cp = orig.copy()
             s_cp = snapshot(kind, cp)
             transform_entity(orig, chosen[0]["ts"], "methods")
+            orig.translate([0.7 * size, -0.4 * size, 0.3 * size])      # (whatever the maps were: the original IS elsewhere now)
             snapshot(kind, orig)            # (the transformed original is used first, the copy afterwards)
             s_cp_after = snapshot(kind, cp)
             ident: List[dict] = []
